@@ -232,6 +232,11 @@ func (ex *Exec) finishPath(s *State) {
 	}
 	if ex.Debug {
 		fmt.Printf("  path %d: status=%d why=%s steps=%d pc=%d\n", s.id, s.status, s.why, s.steps, len(s.pc))
+		if ex.Stats.Paths%500 == 3 {
+			for i, t := range s.pc {
+				fmt.Printf("      pc[%d] %.160s\n", i, t.String())
+			}
+		}
 	}
 }
 
@@ -424,6 +429,50 @@ func (ex *Exec) concretize(s *State, t *Term, max int, pend *pending) (int, bool
 	s.end(BoundFail, fmt.Sprintf("value exceeds %d at %s", max, ex.where()))
 	return 0, false
 }
+
+// concretizeAny pins t to one of its feasible values (taken from a model) and forks
+// the alternative t != v, which re-executes the current instruction.
+func (ex *Exec) concretizeAny(s *State, t *Term, pend *pending) (uint64, bool) {
+	if t.IsConst() {
+		return t.U64(), true
+	}
+	if v, ok := s.pinned[t.ID]; ok {
+		return v, true
+	}
+	r, m := ex.sol.CheckModel(s.pc, nil, []*Term{t})
+	if r != Sat {
+		if r == Unknown {
+			ex.Stats.UnknownFeas++
+			s.end(Unsupported, "concretize: solver unknown at "+ex.where())
+		} else {
+			s.end(Dead, "infeasible")
+		}
+		return 0, false
+	}
+	v := m[t.ID].Uint64()
+	c := ex.tt.Eq(t, ex.tt.BV(v, t.W))
+	// fork the other side if feasible
+	nc := ex.tt.Not(c)
+	ex.Stats.Branches++
+	if rf := ex.sol.Check(s.pc, nc); rf != Unsat {
+		if rf == Unknown {
+			ex.Stats.UnknownFeas++
+		}
+		f := s.clone(ex.newID())
+		f.addPC(nc)
+		pend.forks = append(pend.forks, f)
+	}
+	s.addPC(c)
+	if s.pinned == nil {
+		s.pinned = map[int]uint64{}
+	}
+	s.pinned[t.ID] = v
+	return v, true
+}
+
+// symPosLimit: symbolic element positions over backing arrays longer than this are
+// case-split into concrete positions instead of being encoded as ite chains.
+const symPosLimit = 24
 
 func (ex *Exec) get(fr *Frame, v ssa.Value) Value {
 	switch x := v.(type) {
@@ -847,6 +896,22 @@ func (ex *Exec) elemPath(off, idx *Term) PathElem {
 	return PathElem{Sym: pos}
 }
 
+// elemPathC is elemPath that case-splits the position when the backing array is large.
+func (ex *Exec) elemPathC(s *State, base Ptr, off, idx *Term, pend *pending) (PathElem, bool) {
+	pos := ex.tt.Bin(OpAdd, off, idx)
+	if pos.IsConst() {
+		return PathElem{Idx: int(pos.U64())}, true
+	}
+	if arr, ok := ex.load(s, base).(Agg); ok && len(arr) > symPosLimit {
+		v, ok := ex.concretizeAny(s, pos, pend)
+		if !ok {
+			return PathElem{}, false
+		}
+		return PathElem{Idx: int(v)}, true
+	}
+	return PathElem{Sym: pos}, true
+}
+
 func (ex *Exec) indexAddr(s *State, fr *Frame, x *ssa.IndexAddr, pend *pending) {
 	idx := ex.toInt64(ex.val(s, fr, x.Index).(*Term), x.Index.Type())
 	switch b := ex.val(s, fr, x.X).(type) {
@@ -854,7 +919,11 @@ func (ex *Exec) indexAddr(s *State, fr *Frame, x *ssa.IndexAddr, pend *pending) 
 		if !ex.guard(s, ex.tt.Cmp(OpULt, idx, b.Len), "index out of range", pend) {
 			return
 		}
-		ex.set(fr, x, Ptr{Obj: b.Base.Obj, Path: extendPath(b.Base.Path, ex.elemPath(b.Off, idx))})
+		pe, ok := ex.elemPathC(s, b.Base, b.Off, idx, pend)
+		if !ok {
+			return
+		}
+		ex.set(fr, x, Ptr{Obj: b.Base.Obj, Path: extendPath(b.Base.Path, pe)})
 	case Ptr:
 		if b.Obj == 0 {
 			s.end(Panicked, "nil pointer dereference (index) at "+ex.where())
@@ -865,7 +934,11 @@ func (ex *Exec) indexAddr(s *State, fr *Frame, x *ssa.IndexAddr, pend *pending) 
 		if !ex.guard(s, ex.tt.Cmp(OpULt, idx, ex.tt.BV(uint64(n), 64)), "index out of range", pend) {
 			return
 		}
-		ex.set(fr, x, Ptr{Obj: b.Obj, Path: extendPath(b.Path, ex.elemPath(ex.tt.BV(0, 64), idx))})
+		pe, ok := ex.elemPathC(s, b, ex.tt.BV(0, 64), idx, pend)
+		if !ok {
+			return
+		}
+		ex.set(fr, x, Ptr{Obj: b.Obj, Path: extendPath(b.Path, pe)})
 	default:
 		panic(fmt.Sprintf("indexAddr on %T", b))
 	}
@@ -936,7 +1009,17 @@ func (ex *Exec) sliceOp(s *State, fr *Frame, x *ssa.Slice, pend *pending) {
 		if !ex.guard(s, tt.Cmp(OpULe, lo, hi), "slice bounds out of range (low)", pend) {
 			return
 		}
-		ns := Slice{Base: b.Base, Off: tt.Bin(OpAdd, b.Off, lo), Len: tt.Bin(OpSub, hi, lo), Cap: tt.Bin(OpSub, capv, lo)}
+		noff := tt.Bin(OpAdd, b.Off, lo)
+		if !noff.IsConst() && b.Base.Obj != 0 {
+			if arr, ok := ex.load(s, b.Base).(Agg); ok && len(arr) > symPosLimit {
+				v, ok := ex.concretizeAny(s, noff, pend)
+				if !ok {
+					return
+				}
+				noff = tt.BV(v, 64)
+			}
+		}
+		ns := Slice{Base: b.Base, Off: noff, Len: tt.Bin(OpSub, hi, lo), Cap: tt.Bin(OpSub, capv, lo)}
 		ex.set(fr, x, ns)
 	case Ptr:
 		if b.Obj == 0 {
